@@ -45,3 +45,18 @@ package salsa
 //@ loop 4 invariant forall(k, rangeindex + 1, len(in), in[k] == before(in[k]))
 //@ loop 4 invariant keptoutside(out[0:len(in)])
 //@ canary ensures len(in) == 0
+
+// The exported XORKeyStream (on amd64: assembly) and HSalsa20, as used by NaCl secretbox
+//@ func XORKeyStream
+//@ trusted
+//@ note amd64 assembly salsa2020XORKeyStream: not verified; assumed to compute what the portable genericXORKeyStream is proved to compute (C09)
+//@ nonnil counter key
+//@ may_panic_when len(out) < len(in)
+//@ modifies out[0:len(in)]
+//@ ensures forall(i, 0, len(in), out[i] == old(in[i]) ^ spec.sks(ref(key[:]), le64(counter, 0), (le64(counter, 8) + i / 64) % 18446744073709551616, i % 64))
+
+//@ func HSalsa20
+//@ trusted
+//@ note HSalsa20 core: not verified; writes only *out
+//@ nonnil out in k c
+//@ modifies *out
